@@ -28,13 +28,21 @@ pub broadcast proof fn axiom_one_byte_str(s: &str)
     ensures #[trigger] s.spec_bytes().len() == 1 ==> s@.len() == 1 && (s@[0] as u32) < 128 && s@[0] as u32 == s.spec_bytes()[0] as u32,
 {}
 
+/// desugaring target of the one-element slice pattern `if let [b] = E` (rule R18); verified, not assumed
+fn vt_single<T>(s: &[T]) -> (r: Option<&T>)
+    ensures r.is_some() <==> s.len() == 1, r.is_some() ==> *r.unwrap() == s[0],
+{
+    if s.len() == 1 { Some(&s[0]) } else { None }
+}
 pub struct Character<'s> { pub str: &'s str }
 
 //@unit src/unicode.rs fn is_whitespace nth=0
 //@rule subst(s.chars().all(char::is_whitespace)=>vt_all_chars_ws(s))
+//@rule R18
 pub fn is_whitespace(s: &str) -> (r: bool)
     ensures r == str_ws(s@),
 {
+    broadcast use axiom_ascii_ws, axiom_one_byte_str;
     vt_all_chars_ws(s)
 }
 //@end
